@@ -413,8 +413,9 @@ def _gen_wiring():
 
 def _gen_capacity():
     out = [gen_pool._gen_available()]
-    out.append("(* connect(): `if self._available_connections(key) <= 0: await self._wait_for_available_connection` *)\n"
-               f"Definition connect_must_wait (a : Z) : bool := {gen_pool._call_site('connect', 'if')}.\n")
+    # since 755fa27 connect() computes the capacity once (`available = ...`) and compares it twice; gen_pool reads both
+    out.append("(* connect(): `if <capacity> <= 0: await self._wait_for_available_connection` *)\n"
+               f"Definition connect_must_wait (a : Z) : bool := {gen_pool._connect_sites()[1]}.\n")
     out.append("(* _wait_for_available_connection(): `if self._available_connections(key) > 0: break` *)\n"
                f"Definition wait_slot_found (a : Z) : bool := {gen_pool._call_site('_wait_for_available_connection', 'if')}.\n")
     out.append("(* _release_waiter(): `if self._available_connections(key) < 1: continue` *)\n"
